@@ -474,6 +474,18 @@ static void item_begin(qitem *it) {
 		if (it->barrier && qn->running > 0)
 			h_viol("barrier-overlap", "barrier item %d started on concurrent q%d while %d other item(s) were running (last %d)", it->id, it->q, qn->running, qn->last_item);
 	}
+	// a queue narrowed with dispatch_queue_set_width never has more *asynchronously run* items in flight than its
+	// width: asynchronous items and the helper threads of dispatch_apply reserve width before they run. Synchronous
+	// callers bring their own thread and are admitted beyond the width by design (_dq_state_is_sync_runnable), and so
+	// is the thread that called dispatch_apply; neither is counted.
+	it->holds_width = (it->opkind == OP_ASYNC || it->opkind == OP_BARRIER_ASYNC || it->opkind == OP_GROUP_ASYNC) ||
+		(it->opkind == OP_APPLY && sim_self_id() != it->op->caller_tid);
+	if (it->holds_width) {
+		if (G->oracles & (O_BARRIER | O_HIER | O_ONCE))
+			for (int q = it->q; q >= 0; q = Q[q].target) if (Q[q].kind == QK_CONC && Q[q].width && Q[q].width_running + 1 > Q[q].width)
+				h_viol("width-exceeded", "item %d (op #%d %s on q%d) started while %d asynchronously run items were already in flight through concurrent q%d, whose width is %d", it->id, it->op_idx, opnames[it->opkind], it->q, Q[q].width_running, q, Q[q].width);
+		for (int q = it->q; q >= 0; q = Q[q].target) if (Q[q].kind == QK_CONC && Q[q].width) Q[q].width_running++;
+	}
 	// C03: hierarchy exclusion
 	if ((G->oracles & O_HIER) && it->dom >= 0 && Q[it->dom].dom_running > 0)
 		h_viol("hierarchy-overlap", "item %d (q%d) started while item %d of the same hierarchy (bottom q%d, %s) was running", it->id, it->q, Q[it->dom].dom_last_item, it->dom, qknames[Q[it->dom].kind]);
@@ -486,6 +498,7 @@ static void item_begin(qitem *it) {
 }
 static void item_end(qitem *it) {
 	qnode *qn = &Q[it->q];
+	if (it->holds_width) for (int q = it->q; q >= 0; q = Q[q].target) if (Q[q].kind == QK_CONC && Q[q].width) Q[q].width_running--;
 	qn->running--; if (it->barrier) qn->running_barrier--;
 	if (it->dom >= 0) Q[it->dom].dom_running--;
 	it->result = pay(RC.seed, it->id, 7); it->result_ck = ~it->result;
@@ -583,6 +596,7 @@ static void run_one(qop *op, int client, qitem *from) {
 	if (op->kind == OP_APPLY) {
 		uint64_t call = h_stamp();
 		for (int i = 0; i < op->apply_n; i++) { prep_item(&IT[op->item + i]); IT[op->item + i].call = call; }
+		op->caller_tid = sim_self_id();
 		h_log("call apply #%d n=%d q%d", op->idx, op->apply_n, op->q);
 		RES.counters[QC_SYNC_CALLS]++;
 		if (op->apply_auto) q = DISPATCH_APPLY_AUTO;
